@@ -55,6 +55,9 @@ func Commit(db objects.Store, rs ref.Store, id uuid.UUID) (commits map[string]*o
 	if err != nil {
 		return nil, err
 	}
+	if tx.Status == ref.TSCommitted {
+		return nil, fmt.Errorf("transaction already committed")
+	}
 	m, err := ref.ListTransactionRefs(rs, id)
 	if err != nil {
 		return nil, err
